@@ -71,11 +71,11 @@ Qed.
 
 Lemma parses_slice_main raw sp pp v pos :
   hsps_valid sp = true -> hpps_valid pp = true -> hslice_valid sp pp v = true ->
-  hslice_rps_guard sp pp v = true -> hs_main pp v = true ->
+  hs_main pp v = true ->
   parses raw (hparse_slice_main BR (hs_nt v) (expected_hsps sp) (expected_hpps pp)) pos
          (ser_hslice_main sp pp v) (exp_main sp pp v).
 Proof.
-  intros Hs Hp Hv Hg Hm.
+  intros Hs Hp Hv Hm.
   assert (Hv' := Hv). unfold hslice_valid in Hv'. split_all.
   unfold hparse_slice_main, ser_hslice_main. cbv zeta.
   esp_rewrite. rewrite !cat_eq. fold (hs_cat_nz sp). fold (hs_idr v).
